@@ -11,7 +11,7 @@ from . import model, pattern
 from .util import *
 from .util import DOMAINS, set_domain
 from .. import mir as MIR
-from ..interp import strip_lifetimes
+from ..interp import strip_lifetimes, Infeasible
 
 # ---------------------------------------------------------------------------
 # characters
@@ -622,7 +622,39 @@ def parse_int(P, s, w, signed, radix=10):
             return err(Opaque('ParseIntError', 'PosOverflow'))
         return ok(Sc(val, w, signed))
     if radix != 10:
-        raise Unsupported('symbolic parse with radix %d' % radix)
+        # few symbolic digits (octal / hex escapes): decide each byte against its domain, then parse concretely
+        if len(digits) > 6:
+            raise Unsupported('symbolic parse with radix %d over %d bytes' % (radix, len(digits)))
+        cd = []
+        for b in digits:
+            if isinstance(b, int):
+                cd.append(b)
+                continue
+            # decide the byte against the digits of this radix; anything else is an invalid digit
+            allowed_b = ('0123456789abcdefghijklmnopqrstuvwxyz'[:radix] + 'ABCDEFGHIJKLMNOPQRSTUVWXYZ'[:max(radix - 10, 0)]).encode()
+            pick = None
+            for v in allowed_b:
+                if P.branch(byte_eq(b, v)):
+                    pick = v
+                    break
+            if pick is None:
+                return err(Opaque('ParseIntError', 'InvalidDigit'))
+            cd.append(pick)
+        try:
+            txt = bytes(cd).decode('ascii')
+            allowed = '0123456789abcdefghijklmnopqrstuvwxyz'[:radix] + 'ABCDEFGHIJKLMNOPQRSTUVWXYZ'[:max(radix - 10, 0)]
+            if not txt or any(ch not in allowed for ch in txt):
+                raise ValueError
+            val = int(txt, radix)
+        except (ValueError, UnicodeDecodeError):
+            return err(Opaque('ParseIntError', 'InvalidDigit'))
+        if neg:
+            val = -val
+        if val < lo:
+            return err(Opaque('ParseIntError', 'NegOverflow'))
+        if val > hi:
+            return err(Opaque('ParseIntError', 'PosOverflow'))
+        return ok(Sc(val, w, signed))
     if not neg and all(not isinstance(b, int) for b in digits):
         back = P.state.get('digits_of', {}).get(tuple(b.get_id() for b in digits))
         if back is not None and back.w == w and back.s == signed:
@@ -1138,7 +1170,8 @@ def s_from_utf8(P, c, args, dt):
     return ok(mk_str(bs))
 
 
-def _validate_mixed(bs):
+def _mixed_valid(bs):
+    """UTF-8 validity of a buffer whose symbolic bytes are ASCII: decided by the concrete runs between them"""
     run = []
     for b in bs + [None]:
         if isinstance(b, int):
@@ -1148,8 +1181,29 @@ def _validate_mixed(bs):
                 try:
                     bytes(run).decode('utf-8')
                 except UnicodeDecodeError:
-                    raise Unsupported('invalid UTF-8 in mixed symbolic buffer')
+                    return False
             run = []
+    return True
+
+
+def _validate_mixed(bs):
+    if not _mixed_valid(bs):
+        raise Unsupported('invalid UTF-8 in mixed symbolic buffer')
+
+
+def _mixed_lossy(bs):
+    out = []
+    run = []
+    for b in bs + [None]:
+        if isinstance(b, int):
+            run.append(b)
+        else:
+            if run:
+                out += list(bytes(run).decode('utf-8', 'replace').encode('utf-8'))
+            run = []
+            if b is not None:
+                out.append(b)
+    return out
 
 
 @model('std::string::String::from_utf8')
@@ -1161,9 +1215,19 @@ def s_string_from_utf8(P, c, args, dt):
             bytes(bs).decode('utf-8')
         except UnicodeDecodeError:
             return err(Opaque('FromUtf8Error', args[0]))
-    else:
-        _validate_mixed(bs)
+    elif not _mixed_valid(bs):
+        return err(Opaque('FromUtf8Error', args[0]))
     return ok(StringV(bs))
+
+
+@model('std::string::FromUtf8Error::as_bytes', 'std::string::FromUtf8Error::into_bytes')
+def s_from_utf8_error_bytes(P, c, args, dt):
+    e = tgt(args[0])
+    v = tgt(e.p)
+    if c.method == 'into_bytes':
+        return v
+    from .util import as_slice
+    return as_slice(v)
 
 
 @model('std::string::String::from_utf8_lossy')
@@ -1177,7 +1241,8 @@ def s_from_utf8_lossy(P, c, args, dt):
         except UnicodeDecodeError:
             t = bytes(bs).decode('utf-8', 'replace')
             return En('std::borrow::Cow', 'Owned', [StringV(t.encode('utf-8'))])
-    _validate_mixed(bs)
+    if not _mixed_valid(bs):
+        return En('std::borrow::Cow', 'Owned', [StringV(_mixed_lossy(bs))])
     return En('std::borrow::Cow', 'Borrowed', [mk_str(bs)])
 
 
